@@ -17,7 +17,7 @@ ASSUMPTIONS = [
 ]
 REQUIRED_COUNTERS = ["optimal.cpl", "optimal.cp", "optimal.gp", "family.quad", "family.neglog", "family.entropy", "family.lse",
                      "family.cpl-quad", "family.gp", "backtrack-on-None", "cp-vs-coneqp", "gp-vs-cp", "Fxz-calls-checked",
-                     "kkt.ldl", "kkt.ldl2", "kkt.chol", "kkt.chol2", "sparse-Df", "restricted-domain", "zero-optimum", "junk-upper-triangles-in-G-h"]
+                     "kkt.ldl", "kkt.ldl2", "kkt.chol", "kkt.chol2", "sparse-Df", "restricted-domain", "zero-optimum", "junk-upper-triangles-in-G-h", "kept-start-point", "prox-objective-reads-kept-start-point"]
 
 
 def plan(tier):
@@ -218,6 +218,15 @@ def run(ctx):
             ctx.count("restricted-domain")
         if rng.random() < 0.3:
             pr.junkH = np.array([[rng.uniform(-50, 50) for _ in range(pr.n)] for _ in range(pr.n)])
+        prox = False
+        if entry in ("cp", "cpl") and rng.random() < 0.3:
+            # F() hands out a matrix the caller keeps; for cp in half of these cases the objective is a proximal step
+            # f0(x) + rho/2 ||x - x0||^2 whose centre F reads from that very matrix on every call
+            prox = True
+            if entry == "cp" and rng.random() < 0.5:
+                pr.funcs[0] = nl.Prox(pr.funcs[0], pr.x0.copy(), rng.uniform(0.2, 2.0))
+                ctx.count("prox-objective-reads-kept-start-point")
+            ctx.count("kept-start-point")
         sparse_Df, sparse_H = rng.random() < 0.3, rng.random() < 0.3
         opts, oclass = gen_options(rng, d)
         if "maxiters" in opts and opts["maxiters"] < 5:
@@ -226,11 +235,15 @@ def run(ctx):
         kl = rng.choice(["default"] + names)
         kkt = None if kl == "default" else kl
         log = []
-        F = pr.make_F(log, sparse_Df=sparse_Df, sparse_H=sparse_H, scalar_f=rng.random() < 0.3, none_style=rng.choice([0, 1])) if entry != "gp" else None
+        F = pr.make_F(log, sparse_Df=sparse_Df, sparse_H=sparse_H, scalar_f=rng.random() < 0.3, none_style=rng.choice([0, 1]),
+                      keep_x0=prox, live_centre=prox) if entry != "gp" else None
         c.desc.update({"entry": entry, "family": pr.family, "n": pr.n, "mnl": len(pr.funcs) - (0 if entry == "cpl" else 1), "dims": d.key(),
-                       "p": pr.A.shape[0], "kkt": kl, "opts": opts, "restricted": restricted, "sparse": [pr.sparse_lin, sparse_Df, sparse_H], "zero-optimum": zero_opt})
+                       "p": pr.A.shape[0], "kkt": kl, "opts": opts, "restricted": restricted, "kept-x0": prox, "sparse": [pr.sparse_lin, sparse_Df, sparse_H], "zero-optimum": zero_opt})
         sol, exc = call(entry, pr, F, kkt, opts)
         ctx.count("family." + pr.family)
+        if prox and F is not None and F.x0_object is not None:
+            c.require([float(v) for v in F.x0_object] == [float(v) for v in pr.x0], entry + ":kept-start-point-modified",
+                      "the matrix returned by F() as start point was modified by the solver")
         if exc is not None:
             ctx.count("exception.%s" % type(exc).__name__)
             c.desc["exception"] = "%s: %s" % (type(exc).__name__, exc)
@@ -252,7 +265,7 @@ def run(ctx):
             if sparse_Df: ctx.count("sparse-Df")
             if sparse_H: ctx.count("sparse-H")
         # cross-solver agreement
-        if st == "optimal" and res is not None and entry == "cp" and pr.family == "quad" and len(pr.funcs) == 1 and not restricted:
+        if st == "optimal" and res is not None and entry == "cp" and pr.family == "quad" and len(pr.funcs) == 1 and not restricted and hasattr(pr.funcs[0], "Q"):
             # cp on a convex quadratic objective vs coneqp
             f0 = pr.funcs[0]
             q = gp.Prob(c=f0.r, q=f0.r, P=f0.Q, G=pr.G, h=pr.h, A=pr.A, b=pr.b, dims=d, kind="feasible")
